@@ -253,6 +253,17 @@ package server
 //@ callers (*partition).processPendingMessage serves C04: (*partition).messageProcessingLoop
 //@ callers (*partition).sendTooLargeNack serves C04: (*partition).messageProcessingLoop
 
+// Leader side (C02): which replication requests count, and when a replica may rejoin the in-sync set.
+// A request is served - and the replica's progress recorded from it - only if it names the current leader epoch (0 =
+// "not known yet" is what a follower sends before its first response): a follower still fetching in an older epoch has
+// not reconciled its log with this leader, its log end says nothing about what it holds of THIS leader's log.
+// The health check of a replica starts with placeholder times ("seen now, caught up now"); they must have aged out
+// before the first check, i.e. the first check comes a full lag period after the start, otherwise a replica that has
+// fetched nothing yet looks caught up and is proposed for the in-sync set.
+//@ func (*replicator).tick serves C02
+//@   assumes r != nil && r.partition != nil
+//@   call NewTimer requires [first-check-a-full-lag-period-after-the-start] arg0 == r.maxLagTime
+
 // ---------------------------------------------------------------------------------------------
 // Follower side of replication (property C02): data and HW are taken only from the current leader epoch
 //@ ghost var newest int64
@@ -366,7 +377,8 @@ package server
 // A replication request is a NATS payload too (C14): whatever replica id it names, the leader must not crash. The leader
 // keeps a replicator for every replica EXCEPT itself (startReplicating), so "is a replica" does not imply "has a
 // replicator".
-//@ func (*partition).handleReplicationRequest serves C14
+//@ func (*partition).handleReplicationRequest serves C14, C02
+//@   call request requires [C02:only-requests-of-the-current-leader-epoch-are-served] req.LeaderEpoch == 0 || req.LeaderEpoch == p.LeaderEpoch
 //@   assumes p != nil && p.Partition != nil && p.srv != nil && p.srv.config != nil && p.srv.logger != nil && msg != nil
 //@   assumes [a-replicator-for-every-replica-but-this-server] forall r string :: (r in p.replicators) == ((r in p.replicas) && r != p.srv.config.Clustering.ServerID)
 //@   assumes forall r string :: (r in p.replicators) ==> p.replicators[r] != nil
